@@ -13,7 +13,7 @@ def transform(text, prog, workdir):
     return [('kmod.f90', src.to_fortran())]
 
 
-FEATURES = ('select', 'while', 'call', 'exitcycle', 'section', 'fcall', 'twod', 'assoc')
+FEATURES = ('select', 'while', 'call', 'exitcycle', 'section', 'fcall', 'twod', 'assoc', 'strings')
 
 
 def gen_cases(ctx, n, features=FEATURES):
